@@ -392,9 +392,10 @@ def _execute(plan, keep_log=False):
                     c2 = pickle.loads(pickle.dumps(s)) if st.get("how") == "pickle" else copy.deepcopy(s)
                     c2.scrn
                 except Exception as e:
-                    res.violate("raised", "C05:clone-raised:%s:%s" % (sp["kind"], type(e).__name__),
-                                "screen %d: %s of the screen raised %s: %s" % (i, st.get("how"), type(e).__name__, str(e)[:150]), si)
-                    log.add(si, "clone-raised", i)
+                    # an object that cannot be copied or pickled is not a violation of this property: the caller simply
+                    # goes on with the original
+                    res.count("op.clone_refused")
+                    log.add(si, "clone-refused", i, type(e).__name__)
                     continue
                 res.count("op.clone")
                 log.add(si, "clone", i, st.get("how"))
